@@ -1215,6 +1215,9 @@ func (r *poolRun) script(i int) {
 					} else {
 						r.drop(a)
 					}
+					// the recovery oracle counts failures against the connections pooled at the last
+					// restart; connections dialed since and cut now are not among them
+					delete(afterRestart, a)
 				} else {
 					r.kill(a)
 				}
